@@ -38,6 +38,7 @@ const (
 	KVmStack
 	KDictE
 	KDict
+	KChain
 	KEncErr
 	KOpaque
 	KUnsupported
@@ -231,6 +232,8 @@ func (u *Universe) describe(t reflect.Type) *Desc {
 			return &Desc{Kind: KDictE, Name: name, Elem: kd, Elem2: vd}
 		case "tlb.VmStack":
 			return &Desc{Kind: KVmStack, Elem: u.Describe(t.Elem())}
+		case "wallet.W5ExtendedActions":
+			return &Desc{Kind: KChain, Name: name, Elem: u.Describe(t.Elem())}
 		}
 		if p, ok := primTable[base]; ok {
 			return &Desc{Kind: KPrim, Name: p}
@@ -525,6 +528,8 @@ func (d *Desc) TextIdx(idx map[string]int) string {
 		return "(:de|" + d.Elem.TextIdx(idx) + "|" + d.Elem2.TextIdx(idx) + ")"
 	case KDict:
 		return "(:di|" + d.Elem.TextIdx(idx) + "|" + d.Elem2.TextIdx(idx) + ")"
+	case KChain:
+		return "(:ch|" + d.Elem.TextIdx(idx) + ")"
 	case KEncErr:
 		return "(:ee|:" + symSafe(d.Name) + ")"
 	default:
@@ -612,6 +617,8 @@ func (d *Desc) Lean(idx map[string]int) string {
 		return "(.dictE " + d.Elem.Lean(idx) + " " + d.Elem2.Lean(idx) + ")"
 	case KDict:
 		return "(.dict " + d.Elem.Lean(idx) + " " + d.Elem2.Lean(idx) + ")"
+	case KChain:
+		return "(.chain " + d.Elem.Lean(idx) + ")"
 	case KEncErr:
 		return fmt.Sprintf("(.encErr %q)", symSafe(d.Name))
 	default:
